@@ -1,8 +1,9 @@
-from specs.common import run, ASSUME_COMMON
+from specs.common import run, memcheck, ASSUME_COMMON
 
 SPEC = {
     "runs": [run("e1-model", "c08_series_cardinality", "asan", 5000, 400000, need_lib=True,
-                 tier_params={"quick": {"big_every": 500}, "thorough": {"big_every": 1000}})],
+                 tier_params={"quick": {"big_every": 500}, "thorough": {"big_every": 1000}}),
+             memcheck("c08_series_cardinality", 300, 15000, tier_params={"quick": {"big_every": 500}, "thorough": {"big_every": 1000}})],
     "floors": {
         "quick": {"permutation_pairs": 5000, "equal_pairs_after_filtered_out_change": 1000, "unequal_pairs": 4000,
                   "unequal_pairs_type-changed": 800, "maps_via_process": 2000,
